@@ -272,9 +272,9 @@ SYSTEMS = [
     FlashSystem('c03.lle.grid', LLE_GRID.enum_configs, LLE_GRID.enum_actions, oracle, 1, 1, describe=describe_grid(LLE_GRID)),
     FlashSystem('c03.sle.grid', SLE_GRID.enum_configs, SLE_GRID.enum_actions, oracle, 1, 1, describe=describe_grid(SLE_GRID)),
     FlashSystem('c03.sle.hist', sle_his_configs, sle_his_actions, oracle, 2, 3,
-                describe=dict(alphabet='all 26 sle calls (2 solutes x (5 T + 2 T x 4 solubilities))', configs='SLE_HIS_CONFIGS')),
+                describe=dict(alphabet='all 26 sle calls (2 solutes x (5 T + 2 T x 4 solubilities))', configurations='SLE_HIS_CONFIGS')),
     FlashSystem('c03.hist2', his_enum_configs, _his_actions(12, 30), oracle, 2, 2,
-                describe=dict(alphabet='first 12 (quick) / all 30 (thorough) calls of HIS_CALLS', configs='HIS_CONFIGS')),
+                describe=dict(alphabet='first 12 (quick) / all 30 (thorough) calls of HIS_CALLS', configurations='HIS_CONFIGS')),
     FlashSystem('c03.hist3', his_enum_configs, _his_actions(5, 8), oracle, 3, 3,
-                describe=dict(alphabet='first 5 (quick) / first 8 (thorough) calls of HIS_CALLS', configs='HIS_CONFIGS')),
+                describe=dict(alphabet='first 5 (quick) / first 8 (thorough) calls of HIS_CALLS', configurations='HIS_CONFIGS')),
 ]
